@@ -1,5 +1,6 @@
 import InfluxQL.Lemmas.Prec
 import InfluxQL.Model.ParserCore
+import InfluxQL.Lemmas.ExprRoundTrip
 /-!
 # C03 — binary operators group by precedence and associate to the left
 
@@ -135,5 +136,52 @@ theorem negated_operand_counterexample :
 example : parseChain 'a' [(.ADD, 'b'), (.MUL, 'c'), (.SUB, 'd')] =
     .node .SUB (.node .ADD (.atom 'a') (.node .MUL (.atom 'b') (.atom 'c'))) (.atom 'd') := by rfl
 example : ∀ p ∈ [(Token.ADD, 'b'), (Token.MUL, 'c')], 1 ≤ p.1.precedence := by decide
+
+
+/-! ## Printing and parsing again, on the parser and the printer themselves -/
+
+/-- The decidable class of expressions the round trip is proved for (`RT.rtOK`, see there). -/
+def Printable (e : Expr) : Prop := RT.rtOK e = true
+
+instance (e : Expr) : Decidable (Printable e) := inferInstanceAs (Decidable (RT.rtOK e = true))
+
+/-- **C03 (re-parsing, on the real printer and parser).** For every printable expression `e` —
+any depth, any names and literal values — `ParseExpr(e.String())` returns exactly `e`: the text
+`Expr.print` writes carries the grouping, whatever parameters are bound. -/
+theorem expr_print_parse (e : Expr) (h : Printable e) (params : List (Str × BoundValue))
+    (lower : List (Char × Char)) : parseExprText e.print params lower = .ok e :=
+  RT.parseExprText_print e h params lower
+
+/-- The same from any parser state (the state-level form): `ParseExpr` started before
+`e.String()` followed by `)`, `,` or the end of the input returns `e`, stands before that
+separator with its token pushed back — or the fuel given was too small. -/
+theorem expr_print_parse_state (fuel : Nat) (s : PState) (e : Expr) (k : List Char) (h : Printable e)
+    (hk : RT.SepC k) (hs : RT.AtW s (e.print ++ k)) :
+    wp (parseExpr fuel) s (fun e' s' => e' = e ∧ RT.At s' k ∧ RT.Same s s') (· = .fuel) :=
+  (RT.rt_specs fuel).1 s e k h hk hs
+
+-- non-vacuity: `a + b * (c - 1) AND d = 'x'`
+example : Printable
+    (.binary .AND
+      (.binary .ADD (.varRef ['a'] .Unknown)
+        (.binary .MUL (.varRef ['b'] .Unknown)
+          (.paren (.binary .SUB (.varRef ['c'] .Unknown) (.integer 1)))))
+      (.binary .EQ (.varRef ['d'] .Unknown) (.string ['x']))) := by decide
+
+example : Expr.print
+    (.binary .AND
+      (.binary .ADD (.varRef ['a'] .Unknown)
+        (.binary .MUL (.varRef ['b'] .Unknown)
+          (.paren (.binary .SUB (.varRef ['c'] .Unknown) (.integer 1)))))
+      (.binary .EQ (.varRef ['d'] .Unknown) (.string ['x']))) =
+    "a + b * (c - 1) AND d = 'x'".toList := by decide
+
+-- a quoted name, a keyword as a name, an escaped string
+example : Printable (.binary .OR (.varRef "my field".toList .Unknown)
+    (.binary .LT (.varRef "select".toList .Unknown) (.string "it's".toList))) := by decide
+
+-- the excluded region: the tree of the known finding is not printable
+example : ¬ Printable (.binary .DIV (.varRef ['b'] .Unknown) (.binary .MUL (.integer (-1)) (.varRef ['a'] .Unknown))) := by
+  decide
 
 end InfluxQL.C03
